@@ -96,11 +96,15 @@ func drawRSA(rt *rapid.T) (*rsa.PrivateKey, string) {
 		}
 		d := new(big.Int).ModInverse(E, phi)
 		key := &rsa.PrivateKey{PublicKey: rsa.PublicKey{N: new(big.Int).Mul(p, q), E: e}, D: d, Primes: []*big.Int{p, q}}
-		key.Precompute()
 		if err := key.Validate(); err != nil {
 			continue
 		}
-		return key, fmt.Sprintf("rsa-%d", key.N.BitLen())
+		// one key in three is handed over as built (N, E, D, P, Q): the CRT values are optional, in Go and in KMIP
+		if rapid.IntRange(0, 2).Draw(rt, "precompute") != 0 {
+			key.Precompute()
+			return key, fmt.Sprintf("rsa-%d", key.N.BitLen())
+		}
+		return key, fmt.Sprintf("rsa-%d-no-crt-values", key.N.BitLen())
 	}
 }
 
@@ -240,7 +244,12 @@ func TestC14Keys(t *testing.T) {
 			}
 		}
 		f := rapid.SampledFrom(formats).Draw(rt, "format")
-		der, _ := x509.MarshalPKCS8PrivateKey(priv)
+		// (the rendering for the evidence is made from a copy: marshalling precomputes the CRT values of the key it is given)
+		var forDER crypto.PrivateKey = priv
+		if rk, ok := priv.(*rsa.PrivateKey); ok {
+			forDER = &rsa.PrivateKey{PublicKey: rk.PublicKey, D: rk.D, Primes: append([]*big.Int{}, rk.Primes...)}
+		}
+		der, _ := x509.MarshalPKCS8PrivateKey(forDER)
 		c := c14Case{Key: label, KeyDER: hex.EncodeToString(der), Format: fname[f], Version: ver.String(), Encoding: enc, Public: public}
 		nt := f == kmipclient.Transparent || enc != "binary"
 		rec.Case(nt, []byte(fmt.Sprintf("%s|%s|%s|%s|%v", c.KeyDER, c.Format, c.Version, enc, public)), "key="+label, "format="+c.Format, "enc="+enc, "version="+ver.String(), fmt.Sprintf("public=%v", public))
